@@ -11,4 +11,5 @@ for p in $IDS; do
   echo "$p rc=$r $(echo "$out" | tail -1 | cut -c1-150)"
   [ $r -ne 0 ] && rc=1
 done
+tools/audit_level_texts.py || rc=1
 exit $rc
